@@ -833,6 +833,11 @@ func (env *SpecEnv) curIter() string { return env.iterKey }
 func (r *Run) specTypeArg(env *SpecEnv, e Expr) types.Type {
 	switch x := e.(type) {
 	case EIdent:
+		if _, shadowed := env.vars[x.Name]; !shadowed {
+			if t, ok := basicTypes[x.Name]; ok {
+				return t
+			}
+		}
 		sv := r.evalIdent(env, x.Name)
 		if sv.tyName != nil {
 			return sv.tyName
@@ -846,6 +851,8 @@ func (r *Run) specTypeArg(env *SpecEnv, e Expr) types.Type {
 		if x.Op == "*" {
 			return types.NewPointer(r.specTypeArg(env, x.X))
 		}
+	case EType:
+		return r.eng.resolveType(env.pkg, x.T)
 	}
 	specFail("expected a type, got %s", exprString(e))
 	return nil
@@ -1109,6 +1116,10 @@ func (r *Run) pureInstance(pf *PureFunc) *pureInst {
 			r.emit(fmt.Sprintf("(%s %s (%s) %s %s)", kw, name, strings.Join(decls, " "), retSort, bt.S))
 			pi := &pureInst{name: name, heapKeys: heapKeys, retSort: retSort, retT: retT}
 			r.pureInsts[key] = pi
+			if len(heapKeys) == 0 {
+				// (assumed) axioms about a defined, heap-independent spec function, e.g. injectivity of a formatted key
+				r.emitAxiomsFor(pf)
+			}
 			return pi
 		}
 		heapKeys = newKeys
